@@ -71,9 +71,15 @@ def run_case(case, env):
     dtype = gens.dt(nt, bo)
     d = env.scratch.new('l')
     try:
-        path = d / 'data.darr'
+        (d / 'x' / 'y').mkdir(parents=True)
+        os.symlink(d / 'x' / 'y', d / 'lnk')
+        path = d / 'x' / 'data.darr'
         stored = gens.distinct_values(rng, dtype, shape) if int(np.prod(shape)) else np.zeros(shape, dtype)
         a = D.asarray(path, stored.copy(), chunklen=3)
+        if mode == 'abspath' and sum(shape) % 2:
+            # the handle is opened through a path in which '..' follows a symbolic link: only resolving the
+            # link gives the real location (a purely lexical normalisation names a file that does not exist)
+            a = D.Array(d / 'lnk' / '..' / 'data.darr')
         root = d / 'root'
         (root / 'some').mkdir(parents=True)
         os.symlink(path, root / 'some' / 'base')
